@@ -826,3 +826,22 @@ def replay(ctx, path):
             rc = 1
             print("VIOLATION property=%s replay=%s" % (PID, path))
     return rc
+
+
+META = {
+    "text": "Rocq theorems for ALL finite operation histories from A_STR_INIT on two string objects, under EVERY allocator fault "
+            "schedule: num<=mem and |block|=mem, no out-of-block access; every step either reports allocation failure with both "
+            "byte strings unchanged or has exactly the return value and effect of the abstract byte-string operation (all "
+            "appends incl. self-append, formatted text and code points, pop, trims, length change, hand-over, comparison); "
+            "terminating variants leave a NUL directly after the content inside the capacity; formatted append returns |out| and "
+            "appends exactly the formatter's output on both the one-pass and the measure-grow-format-again path; comparisons "
+            "give the sign of bytewise lexicographic order with length tie-break; trims remove the maximal prefix/suffix. "
+            "Tie: extracted model vs the C (ASan+UBSan, replacement a_alloc with fault schedule that always moves on realloc): "
+            "return value, both objects' ptr/num/mem/block bytes and allocator events after every operation.",
+    "note": "Trusted: Coq kernel; extraction (ExtrOcamlBasic only) + drivers; hand-written model coq/C06/StrDefs.v tied by "
+            "differential testing on the generated histories (sizes relative to the running state hit every reservation "
+            "boundary); vsnprintf is modelled by its contract (StrDefs.vsn), memcpy/memmove/memchr/memcmp/strlen as list "
+            "operations, isspace as the C-locale set, char signed; preconditions op_ok (sizes below 2^64 - 8 etc.) are stated "
+            "in the theorems. No axioms.",
+    "technique": "Rocq proof (invariant + refinement to abstract byte strings by induction over histories and fault schedules) + extracted-model vs C correspondence under ASan",
+}
